@@ -21,16 +21,22 @@ FUSION_DOMAIN = "ai.onnxruntime._fusion"
 
 # ------------------------------------------------------------------------------------------------ dim encoding
 class Codes:
-    """int -> itself; named symbolic dim -> -2, -3, ... (one per name); unnamed dim -> -1."""
+    """int -> itself; named symbolic dim -> -2, -3, ... (one per name); unnamed dim -> -1 -- or, when the implementation never
+    equates two unknown dims (fix C19_09; probed by the unnamed-dims witness), a fresh code <= -1000 per occurrence."""
+    strict_unknown = False
 
     def __init__(self):
         self.names = {}
+        self.fresh = 0
 
     def dim(self, d):
         if isinstance(d, int):
             return d
         v = getattr(d, "value", d)
         if v is None:
+            if Codes.strict_unknown:
+                self.fresh += 1
+                return -999 - self.fresh
             return -1
         if isinstance(v, int):
             return v
@@ -138,8 +144,10 @@ def fam_mha(st, probe):
     fam = "mha"
     n = 36 if ctx.tier == "quick" else 320
     fired_n = corr_n = 0
+    Codes.strict_unknown = bool(unnamed_dims_witness(st, probe) is False)     # decides how unnamed dims are encoded for the models
+    st.flags["unknown_dims_never_equal"] = Codes.strict_unknown
     # always present: every comparison of the mask's leading dims (1 | B, 1 | H with B != H, both > 1), dim 2 (S | 1) and a 2-D mask
-    forced = [[1, 3, 3, 3], [2, 3, 3, 3], [2, 1, 1, 3], [2, 3, 1, 3], [3, 3], [1, 3]]
+    forced = [[1, 3, 3, 3], [2, 3, 3, 3], [2, 1, 1, 3], [2, 3, 1, 3], [3, 3], [1, 3], "unnamed", "unnamed-B"]
     for i in range(n + len(forced)):
         B, S, H = rng.randrange(1, 4), rng.randrange(1, 5), rng.randrange(1, 5)
         if i >= n:
@@ -174,7 +182,12 @@ def fam_mha(st, probe):
             p["mask"] = pick(rng, [[B, 1, S, T], [1, 1, S, T], [B, H, S, T], [1, H, S, T], [S, T], [1, T], [B, 1, 1, T], [1, 1, 1, T], [B, H, 1, T]])
         r = rng.random()
         finding = None
-        if i >= n:
+        if i >= n and isinstance(forced[i - n], str):
+            # query / key / value declared with UNNAMED batch (and sequence) dims: equal as read, never equal with fix C19_09
+            r, decl = 1.0, ({"B": None, "S": None} if forced[i - n] == "unnamed" else {"B": None})
+            p["decl"] = decl
+            p.pop("mask", None)
+        elif i >= n:
             r, decl, p["decl"], p["mask"] = 1.0, {}, {}, forced[i - n]
         if r < 0.06:
             near, p["near"] = "out-perm", "out-perm"
@@ -229,7 +242,7 @@ def fam_mha(st, probe):
             replace_sdpa_by_mha(m)
             return c["mha1"] + c["mha2"]
         key_t = p["key_kind"] == "T" or "past" in p
-        cls = (fam, p["dtype"], mode, p["key_kind"], p["reshape"], tuple(sorted(decl)), tuple(p["mask"]) if "mask" in p and near else ("mask" in p and len(p["mask"])), near,
+        cls = (fam, p["dtype"], mode, p["key_kind"], p["reshape"], tuple(sorted(decl)) + tuple(k for k, v in decl.items() if v is None), tuple(p["mask"]) if "mask" in p and near else ("mask" in p and len(p["mask"])), near,
                p["scale"], "scale_value" in p)
         structural = near in (None, "mask-rank3", "mask-dim2-other-symbol", "symbolic-heads")
         if out_tgt is not None:
@@ -289,7 +302,6 @@ def fam_mha(st, probe):
     for tgt in ([-1, 8], [0, -1, 4]):
         pp = dict(base, out_reshape=tgt)
         probe(st, fam, mha_model(pp), plain, pp, finding="C19:mha:output-reshape-not-checked", cls=(fam, "finding", "out-reshape", len(tgt)))
-    unnamed_dims_witness(st, probe)
     ctx.cover(mha_fired=fired_n, mha_correspondence_cases=corr_n)
     floor = 10 if ctx.tier == "quick" else 80
     if fired_n < floor or corr_n < 2 * floor:
@@ -333,8 +345,9 @@ def unnamed_dims_witness(st, probe):
     def fn(m):
         fuse_sdpa(m)
         return fuse_mha2(m)
-    probe(st, "mha", NoInfer(), fn, {"witness": "unnamed dims, Reshape to [S,B,H,Dh]"}, finding="C19:mha:unnamed-dims-compared-equal",
-          cls=("mha", "finding", "unnamed-dims"))
+    fired, _ = probe(st, "mha", NoInfer(), fn, {"witness": "unnamed dims, Reshape to [S,B,H,Dh]"}, finding="C19:mha:unnamed-dims-compared-equal",
+                     cls=("mha", "finding", "unnamed-dims"))
+    return fired
 
 
 # ------------------------------------------------------------------------------------------------ SDPA -> MHA lowering
@@ -470,8 +483,8 @@ def fam_attention_rule(st, probe):
     from onnxscript.rewriter.ort_fusions.sdpa_via_mha import replace_sdpa_by_mha
     ctx, rng = st.ctx, st.ctx.rng
     fam = "attention"
-    fired_n = 0
-    for i in range(10 if ctx.tier == "quick" else 80):
+    fired_n = slice_n = 0
+    for i in range(14 if ctx.tier == "quick" else 90):
         B, S, H = rng.randrange(1, 3), rng.randrange(1, 5), rng.randrange(1, 4)
         Dh = pick(rng, [2, 4, 8])
         p = dict(dtype=pick(rng, ["float32", "float32", "float16"]), B=B, S=S, H=H, Dh=Dh, key_kind="T", scale=pick(rng, [("qk", "Mul"), None]),
@@ -482,6 +495,20 @@ def fam_attention_rule(st, probe):
             p["mask"] = pick(rng, [[B, 1, S, S], [1, 1, S, S], [B, H, S, S]])
         if rng.random() < 0.3:
             p["B_decl"], p["S_decl"] = "B", "S"
+        near = None
+        if i % 2 == 1:
+            # the packed-MatMul + Slice variant of the rule (no_slice = False)
+            p["packed"], p["proj_bias"] = True, True
+            D_ = H * Dh
+            p["slice_end"] = pick(rng, [3 * D_, 2 ** 63 - 1, 3 * D_ + 5])
+            u = rng.random()
+            if u < 0.12:
+                near, p["slice_bounds"] = "gap", [(0, D_), (D_, 2 * D_), (2 * D_ + 0, 3 * D_ - 1)] if D_ > 1 else None
+                if p["slice_bounds"] is None:
+                    near = None
+                    del p["slice_bounds"]
+            elif u < 0.24:
+                near, p["slice_bounds"] = "start-not-0", [(1, D_ + 1), (D_ + 1, 2 * D_ + 1), (2 * D_ + 1, 2 ** 63 - 1)]
         g, _ = A.attention_model(p)
         obs = {}
 
@@ -493,7 +520,21 @@ def fam_attention_rule(st, probe):
                 fuse_mha_bias(m)
             codes = Codes()
             mh = [nd for nd in m.graph if nd.op_type == "MultiHeadAttention"]
-            if mh:
+            if mh and p.get("packed"):
+                nd = mh[0]
+                vals = values_by_name(m)
+                sls = [x.producer() for x in nd.inputs[:3]]
+                if all(pr is not None and pr.op_type == "Slice" for pr in sls):
+                    def cv(v):
+                        t = v.const_value
+                        return None if t is None or t.numpy().size != 1 else int(t.numpy().reshape(-1)[0])
+                    _obs["slice"] = dict(input=codes.shape(vals.get("input")), projected=codes.shape(vals.get("projected")),
+                                         weight=codes.shape(vals.get("w_qkv")), qkv=[codes.shape(x) for x in nd.inputs[:3]],
+                                         bounds=[cv(pr.inputs[j]) for pr in sls for j in (1, 2)])
+                _obs["mha_scale"] = nd.attributes.get_float("scale", None)
+                _obs["has_bias"] = len(nd.inputs) > 3 and nd.inputs[3] is not None
+                _obs["weights"] = None
+            elif mh:
                 nd = mh[0]
                 ws = []
                 for x in nd.inputs[:3]:
@@ -513,7 +554,8 @@ def fam_attention_rule(st, probe):
                                    scale=nd.attributes.get_float("scale", None), n_in=len(nd.inputs),
                                    bias=nd.inputs[2] is not None, mask=len(nd.inputs) > 5 and nd.inputs[5] is not None)
             return cnt
-        fired, m2 = probe(st, fam, g, fn, p, expect=None, cls=(fam, p["dtype"], p["proj_bias"], "mask" in p, p["scale"], "B_decl" in p),
+        fired, m2 = probe(st, fam, g, fn, p, expect=None, cls=(fam, p["dtype"], p["proj_bias"], "mask" in p, p["scale"], "B_decl" in p, bool(p.get("packed")), near,
+                                                              p.get("slice_end", 0) >= 2 ** 62),
                           slack=4.0 if p["dtype"] == "float16" else 2.0, fused_ops=("Attention",))
         if fired is None or "weights" not in obs:
             continue
@@ -521,14 +563,25 @@ def fam_attention_rule(st, probe):
         att = obs.get("att")
         ws = obs["weights"]
         observed = "None" if not att else f"(Some ({cz(att['sizes'][0])}, {cz(att['sizes'][1])}, {cz(att['sizes'][2])}))"
+        if p.get("packed"):
+            slice_n += bool(att)
+            sl = obs.get("slice")
+            if sl and obs["has_bias"]:
+                bl = "[" + "; ".join("None" if b_ is None else f"(Some {cz(b_)})" for b_ in sl["bounds"]) + "]"
+                st.add_case("attn", f"CAtt (mk_att_in false {cshape(sl['input'])} {cshape(sl['projected'])} {cshape(sl['weight'])} "
+                                    f"{cshape(sl['qkv'][0])} {cshape(sl['qkv'][1])} {cshape(sl['qkv'][2])} {bl}) {observed}", (fam, p, obs))
+            if att and (att["num_heads"] != H or att["mask"] != ("mask" in p) or not att["bias"]):
+                ctx.tie_broken("correspondence", f"{fam}:rewrite:slice", f"{p}: {att}")
+            continue
         if obs["has_bias"]:       # the pattern names qkv_bias: without a bias the rule has nothing to bind -- structural
             st.add_case("attn", f"CAtt (mk_att_in true {cshape(obs['input'])} None None {cshape(ws[0])} {cshape(ws[1])} {cshape(ws[2])} []) {observed}", (fam, p, obs))
         if att:
             sc_ok = (att["scale"] is None) == (obs["mha_scale"] is None) and (att["scale"] is None or abs(att["scale"] - obs["mha_scale"]) < 1e-6)
             if att["num_heads"] != H or not sc_ok or att["mask"] != ("mask" in p) or not att["bias"]:
                 ctx.tie_broken("correspondence", f"{fam}:rewrite", f"{p}: {att}, MHA scale {obs['mha_scale']}")
-    if fired_n < (3 if ctx.tier == "quick" else 25):
-        ctx.tie_broken("harness", "generator-degenerate:attention", f"Attention fused on {fired_n} instances")
+    ctx.cover(attention_fired=fired_n, attention_slice_variant_fired=slice_n)
+    if fired_n < (3 if ctx.tier == "quick" else 25) or slice_n < (2 if ctx.tier == "quick" else 12):
+        ctx.tie_broken("harness", "generator-degenerate:attention", f"Attention fused on {fired_n} instances, the packed+Slice variant on {slice_n}")
 
 
 # ------------------------------------------------------------------------------------------------ GQA
